@@ -213,7 +213,7 @@ func nativeReplay(pkg string, cases []replayCase) (map[string]replayOut, error) 
 		if rerr != nil {
 			why := "process crashed"
 			for _, l := range strings.Split(text, "\n") {
-				if strings.Contains(l, "fatal error") || strings.Contains(l, "stack overflow") || strings.Contains(l, "goroutine stack exceeds") {
+				if strings.Contains(l, "fatal error") || strings.Contains(l, "stack overflow") || strings.Contains(l, "goroutine stack exceeds") || strings.Contains(l, "hang:") {
 					why = "process crashed: " + strings.TrimSpace(l)
 					break
 				}
